@@ -266,6 +266,28 @@ def showRaw (qs : List Term) (st : State) : String :=
   let terms := qs.map (apply st.σ)
   showTuple terms ++ " @ - @ " ++ " ".intercalate (terms.map fun _ => "-")
 
+/-- STATE DUMP (`rst` mode): walk* of every program variable, the finite-domain store and the constraint
+    store of the state, canonical (sorted) — compared with the same dump of the real solver state -/
+def showDump (nv : Nat) (st : State) : String :=
+  let tm (t : Term) : String := showTerm (fun _ => none) (apply st.σ t)
+  let terms := (List.range nv).map fun x => tm (.var x)
+  let doms := sortStrs (st.dstore.map fun p =>
+    s!"{tm (.var p.1)}=\{{",".intercalate (p.2.iter.map fun (v : Int) => toString v)}}")
+  let ops (l : List Term) : String := " , ".intercalate (l.map tm)
+  let cs := sortStrs (st.store.map fun p =>
+    match p.2 with
+    | .diseq ps => "diseq " ++ " & ".intercalate (sortStrs (ps.map fun q => s!"{tm (.var q.1)}!={tm q.2}"))
+    | .plusz u v w => "plusz " ++ ops [u, v, w]
+    | .timesz u v w => "timesz " ++ ops [u, v, w]
+    | .ltefd u v => "ltefd " ++ ops [u, v]
+    | .plusfd u v w => "plusfd " ++ ops [u, v, w]
+    | .minusfd u v w => "minusfd " ++ ops [u, v, w]
+    | .timesfd u v w => "timesfd " ++ ops [u, v, w]
+    | .diseqfd u v => "diseqfd " ++ ops [u, v]
+    | .distinctfd u => "distinctfd " ++ ops [u]
+    | .distinctfd2 u _ _ => "distinctfd2 " ++ ops u.iterItems)
+  " ; ".intercalate terms ++ " # D[" ++ " ; ".intercalate doms ++ "] C[" ++ " ; ".intercalate cs ++ "]"
+
 def topFuel : Nat := 40
 def defaultFuel : Nat := 20000
 
@@ -274,10 +296,11 @@ def topSolver (fuel : Nat) : G → State → Strm State Call := solveAt (defs or
 
 /-- Collect up to `k` answers (`k = 0`: all) within `fuel` units IN TOTAL: the loop of
     `ResultIterator::next` over `Solver::next`; one unit per engine `step` and per delivered answer. -/
-def collect (raw cnt diff : Bool) (qs : List Term) (pf : Nat) : Nat → Nat → Strm State Call → List String → List String
+def collect (raw cnt diff : Bool) (qs : List Term) (pf : Nat) (dump : Option Nat := none) :
+    Nat → Nat → Strm State Call → List String → List String
   | _, _, .empty, acc => acc.reverse
   | 0, _, _, acc => acc.reverse ++ ["FUEL"]
-  | fuel + 1, k, .lazy l, acc => collect raw cnt diff qs pf fuel k (step (topSolver pf) l) acc
+  | fuel + 1, k, .lazy l, acc => collect raw cnt diff qs pf dump fuel k (step (topSolver pf) l) acc
   | fuel + 1, k, .unit st, acc => emit fuel k st .empty acc
   | fuel + 1, k, .cons st l, acc => emit fuel k st (.lazy l) acc
 where
@@ -285,9 +308,11 @@ where
     match st.panic with
     | some site => if site == "FUEL" then acc.reverse ++ ["FUEL"] else [s!"PANIC {site}"]
     | none =>
-      let ans := if raw then showRaw qs st else if cnt then showCounted diff qs st else showAnswer (mkAnswer ord0 qs st)
+      let ans := match dump with
+        | some nv => showDump nv st
+        | none => if raw then showRaw qs st else if cnt then showCounted diff qs st else showAnswer (mkAnswer ord0 qs st)
       let acc := ans :: acc
-      if acc.length == k then acc.reverse else collect raw cnt diff qs pf fuel k rest acc
+      if acc.length == k then acc.reverse else collect raw cnt diff qs pf dump fuel k rest acc
 
 def runProg (ts : Toks) : String :=
   match nat ts with
@@ -309,7 +334,8 @@ def runProg (ts : Toks) : String :=
               let qv := Term.var nv
               let st0 := State.empty (nv + 1)
               let fl := flags.splitOn ":"
-              let raw := fl.head? == some "raw"
+              let dump := fl.head? == some "rst"
+              let raw := fl.head? == some "raw" || dump
               let fuel? : Option Nat := match fl with
                 | [_] => some defaultFuel
                 | [_, f] => f.toNat?
@@ -324,7 +350,7 @@ def runProg (ts : Toks) : String :=
                        else if cnt then topSolver fuel (.fresh (Goal.conjOfList
                          [eqG ord0 qv (Term.ofList qs), Goal.conjOfList body, reifyG ord0 qv, probe])) st0
                        else topSolver fuel (queryG ord0 qv qs body) st0
-              let answers := collect raw cnt diff qs fuel fuel take s []
+              let answers := collect raw cnt diff qs fuel (if dump then some nv else none) fuel take s []
               let answers := if cnt then sortStrs answers else answers
               if answers.isEmpty then "none" else " || ".intercalate answers
         | [] => "bad-case"
